@@ -12,10 +12,13 @@ Y(k+1) = Y(k) + rows(V(k)).  The clause proved on the real body: for EVERY k, if
 is V(k)'s POSITION (not merely a position holding an equal widget: one widget object may sit at several
 positions).
 
-`calculate_visible` itself (three walker-driven loops) is not verified here: it is used through an assumed,
-deterministic contract (`lb_visible_items`); the bounded stand-in bounded/C07.py judges it against the rows
-actually drawn.  A focus change still pending (set_focus called, nothing rendered since) is outside this
-contract: "visible" presupposes a rendering, and rendering completes the pending change."""
+`calculate_visible` is used through its verified contract (contracts/C07_listbox.py: the window it reports is a
+gap-free stretch of the walker's chain around the focus), the wheel buttons through the verified contracts of
+`_keypress_up` / `_keypress_down` (contracts/C07_keys.py) -- until those existed, three assumed stand-ins were used
+here (`calculate_visible#C07-visible-items`, `_keypress_up#C07-wheel`, `_keypress_down#C07-wheel`: gone).  Their
+preconditions are this contract's: a sane scroll state (`lb_ok`), a box of at least one row, and no focus change
+still pending (set_focus called, nothing rendered since): "visible" presupposes a rendering, and rendering
+completes the pending change."""
 import z3
 
 from pyvc import seqs as Q
@@ -25,71 +28,22 @@ from pyvc.api import PROTOCOLS, REGISTRY
 from pyvc.values import cur, is_none, mk_bool
 from contracts.proto_widget import *
 from contracts.C09_frame import mouse_press  # the (assumed, deterministic) predicate `is_mouse_press(event)`
-from contracts.C08_listbox import FILL, LBX, LISTBOX, WIDGET, focus_at, walker_focus
+from contracts.C08_listbox import FILL, LBX, LISTBOX, WIDGET, focus_at, lb_ok, walker_focus
 
 from urwid.widget import listbox as _lbmod
-
-VISIBLE = Tup(Tup(Int, WIDGET, Int, Dim, Opt(Tup(Int, Int))), Tup(Int, FILL), Tup(Int, FILL))
-
-
-@contract(LBX + "ListBox.calculate_visible", property=(), assumed=True, alias="C07-visible-items", deterministic=True,
-          notes="with no focus change pending: a pure function of (walker state, widget states, offset_rows / inset_fraction, size, "
-                "focus) - reads get_focus / get_prev / get_next and the widgets' rows(), writes nothing; result ((offset, focus "
-                "widget, focus position, focus rows, cursor), (trim_top, [(widget, position, rows)] above, nearest first), "
-                "(trim_bottom, [... below])) with rows >= 0 and 0 <= trim_top; the middle entry is the walker's focus; of the list "
-                "box's own fields it reads offset_rows and inset_fraction only (get_focus_offset_inset) besides the two pending-"
-                "change fields, which are None here. Its three "
-                "walker-driven loops are outside what was brought under contract; bounded/C07.py judges what it reports against "
-                "the rows drawn")
-class lb_visible_items:
-    self_shape = LISTBOX
-    params = dict(size=Tup(Int, Int), focus=Bool)
-    result = VISIBLE
-    modifies = ()
-    raises = (_lbmod.ListBoxError,)
-    # get_focus_offset_inset refuses an inset_fraction that is not a proper fraction (consulted only at offset 0)
-    raises_iff = {_lbmod.ListBoxError: lambda s, a: both(s.offset_rows == 0, either(s.inset_fraction[0] < 0, s.inset_fraction[1] < 0, s.inset_fraction[0] >= s.inset_fraction[1]))}
-    deterministic_reads = ("_body", "offset_rows", "inset_fraction")
-
-    def requires(s, a):
-        return both(is_none(s.set_focus_pending), neg(mk_bool(walker_focus(s)[0].isnone)))
-
-    def ensures(old, s, a, result):
-        yield "middle-is-the-walkers-focus", result[0][2] == walker_focus(old)[1]
-        yield "trim-top-not-negative", result[1][0] >= 0
-
-
-def _moves_focus(name):
-    @contract(LBX + f"ListBox.{name}", property=(), assumed=True, alias="C07-wheel",
-              notes="scrolls one step (the 'up' / 'down' key procedure, also bound to the mouse wheel): may move the focus and the "
-                    "offsets; returns None when it moved, True when it could not; ~60 lines of scrolling logic exercised by bounded/C07.py")
-    class k:
-        self_shape = LISTBOX
-        params = dict(size=Tup(Int, Int))
-        result = Opt(Bool)
-        raises = (_lbmod.ListBoxError, ValueError, IndexError, KeyError)
-        modifies = ("offset_rows", "inset_fraction", "pref_col")
-
-        def effects(old, s, a, result):
-            PROTOCOLS["ListWalker"].bump(cur(), s._body)
-
-    return k
-
-
-lb_wheel_up = _moves_focus("_keypress_up")
-lb_wheel_down = _moves_focus("_keypress_down")
-
 
 class Visible:
     """The visible items of list box `lb` at `size` read top-down, from the value calculate_visible reports in the
     state `lb` (a snapshot)."""
 
     def __init__(self, lb, size):
-        middle, top, bottom = lb_visible_items.spec_value(lb, size=size, focus=True)
+        # what the calculate_visible call of this path answered (callee side of its verified contract: ghost `cv_witness`),
+        # the two lists as they were returned (`cv_lists`: mouse_event reverses fill_above in place)
+        g = cur().ghost
+        middle, top, bottom = g["cv_witness"][4]
         self.middle = middle
         self.trim_top = top[0]
-        above = top[1].seq if isinstance(top[1], Q.LRef) else top[1]
-        below = bottom[1].seq if isinstance(bottom[1], Q.LRef) else bottom[1]
+        above, below = g["cv_lists"]
         self.n_above = Q.seq_len(above)
         self.n = self.n_above + 1 + Q.seq_len(below)
         fa, fb = Q.seq_cpsum(above, 2), Q.seq_cpsum(below, 2)
@@ -153,8 +107,7 @@ def calls(name=None):
     return [ev for ev in cur().trace if ev[0] == "call" and ev[1].kind == "Widget" and (name is None or ev[2] == name)]
 
 
-@contract(LBX + "ListBox.mouse_event", property="C07", replayable=False,
-          contract_overrides={LBX + "ListBox.calculate_visible": lb_visible_items, LBX + "ListBox._keypress_up": lb_wheel_up, LBX + "ListBox._keypress_down": lb_wheel_down})
+@contract(LBX + "ListBox.mouse_event", property="C07", replayable=False)
 class lb_mouse_event:
     qf_branching = True
     self_shape = LISTBOX
@@ -166,7 +119,7 @@ class lb_mouse_event:
 
     def requires(s, a):
         # a list that is not empty, drawn since the last focus assignment (see the module docstring), at a real size
-        return both(a.size[0] >= 0, a.size[1] >= 0, 0 <= a.row, is_none(s.set_focus_pending), neg(mk_bool(walker_focus(s)[0].isnone)))
+        return both(a.size[0] >= 0, a.size[0] < DIMMAX, a.size[1] >= 1, a.size[1] < DIMMAX, 0 <= a.row, is_none(s.set_focus_pending), neg(mk_bool(walker_focus(s)[0].isnone)), lb_ok(s))
 
     def ensures(old, s, a, result):
         W = PROTOCOLS["Widget"]
@@ -193,3 +146,9 @@ class lb_mouse_event:
                 at_row, both(eq(ev[1], w), x["col"] == a.col, x["row"] == a.row - Yk, x["button"] == a.button, eq(x["event"], a.event)))
         yield "row-below-the-last-visible-item-changes-nothing", implies(
             a.row >= Yn, both(len(me) == 0, eq(result, False), now[1] == was))
+        if "updown_K" in st.ghost:
+            # the wheel: the 'up' / 'down' procedure that ran reports how far along the walker's chain, and in which direction,
+            # the focus went (callee side of contracts/C07_keys.py): button 4 scrolls up, button 5 down
+            ch, _d, K = st.ghost["updown_K"]
+            for button, d in ((4, 0), (5, 1)):
+                yield f"wheel-button-{button}-moves-the-focus-{('up', 'down')[d]}-the-list-or-keeps-it", implies(a.button == button, both(K >= 0, ch.ok(d, K), now[1] == ch.pos(d, K)))
